@@ -692,11 +692,18 @@ type FileParams struct {
 	// Phys: the pipestance lives below a symlinked directory and the
 	// producer reports its files by physical path.
 	Phys bool
+	// Second: the consumer (and, with TopOut, the top-level pipeline) also
+	// takes a second file output of the same producer.
+	Second bool `json:",omitempty"`
 }
 
 func (d FileParams) String() string {
-	return fmt.Sprintf("files{out=%s proj=%q prod=%s prodwrap=%v conswrap=%v consmap=%v prodmap=%v late=%v vol=%q retain=%q topout=%v mode=%s size=%d phys=%v}",
-		d.Out, d.Proj, d.Prod, d.ProdWrap, d.ConsWrap, d.ConsMap, d.ProdMap, d.Late, d.Vol, d.Retain, d.TopOut, d.Mode, d.Size, d.Phys)
+	sec := ""
+	if d.Second {
+		sec = " second=true"
+	}
+	return fmt.Sprintf("files{out=%s proj=%q prod=%s prodwrap=%v conswrap=%v consmap=%v prodmap=%v late=%v vol=%q retain=%q topout=%v mode=%s size=%d phys=%v%s}",
+		d.Out, d.Proj, d.Prod, d.ProdWrap, d.ConsWrap, d.ConsMap, d.ProdMap, d.Late, d.Vol, d.Retain, d.TopOut, d.Mode, d.Size, d.Phys, sec)
 }
 
 func filewOuts() []Param {
@@ -786,6 +793,24 @@ func FileFlow(d FileParams) *Program {
 		}
 	}
 	cons := filerStage(p, consT)
+	secondOut := ""
+	if d.Second {
+		if d.Prod != "filew" || d.ProdMap || d.ConsMap {
+			return nil
+		}
+		secondOut = "g"
+		if d.Out == "g" {
+			secondOut = "f"
+		}
+		var secondT *T
+		for _, o := range prod.Outs {
+			if o.Name == secondOut {
+				secondT = o.T
+			}
+		}
+		cons = &Stage{Name: cons.Name + "_2", Fn: "FILER", Ins: append(append([]Param{}, cons.Ins...), Param{T: secondT, Name: "x2"}), Outs: cons.Outs}
+		p.Stages = append(p.Stages, cons)
+	}
 	top := &Pipeline{Name: "TOP", Ins: []Param{{T: IntT, Name: "n"}}}
 	prodCall := &Call{Callee: prod.Name, Binds: []Bind{{"n", Self("n")}}}
 	if d.Vol == "call" {
@@ -795,12 +820,17 @@ func FileFlow(d FileParams) *Program {
 		prodCall.Map = true
 		prodCall.Binds = []Bind{{"n", SplitE(Lit(Arr(Int(size), Int(size+1))))}}
 	}
-	var srcE *Exp
+	var srcE, secondE *Exp
 	pth := strings.Trim(d.Out+"."+d.Proj, ".")
 	if d.ProdWrap {
 		pw := &Pipeline{Name: "PW", Ins: []Param{{T: IntT, Name: "n"}},
 			Outs: []Param{{T: valT, Name: "r"}}, Calls: []*Call{prodCall},
 			Ret: []Bind{{"r", Ref(prod.Name, pth)}}}
+		if d.Second {
+			pw.Outs = append(pw.Outs, Param{T: cons.Ins[len(cons.Ins)-1].T, Name: "r2"})
+			pw.Ret = append(pw.Ret, Bind{"r2", Ref(prod.Name, secondOut)})
+			secondE = Ref("PW", "r2")
+		}
 		if d.ProdMap {
 			return nil // keep the mapped producer at top level
 		}
@@ -813,6 +843,9 @@ func FileFlow(d FileParams) *Program {
 	} else {
 		top.Calls = append(top.Calls, prodCall)
 		srcE = Ref(prod.Name, pth)
+		if d.Second {
+			secondE = Ref(prod.Name, secondOut)
+		}
 		if d.Retain == "pipe" {
 			top.Retain = []*Exp{Ref(prod.Name, d.Out)}
 		}
@@ -827,6 +860,9 @@ func FileFlow(d FileParams) *Program {
 			arg = SplitE(srcE)
 		}
 		c := &Call{Callee: cons.Name, Alias: alias, Map: d.ConsMap, Binds: []Bind{{"x", arg}, {"after", after}}}
+		if d.Second {
+			c.Binds = append(c.Binds, Bind{"x2", secondE})
+		}
 		rt := IntT
 		if d.ConsMap {
 			if valT.K == TArray {
@@ -845,8 +881,19 @@ func FileFlow(d FileParams) *Program {
 			Outs: []Param{{T: IntT, Name: "seen"}},
 			Calls: []*Call{{Callee: cons.Name, Alias: "C", Binds: []Bind{{"x", Self("x")}, {"after", Self("after")}}}},
 			Ret:   []Bind{{"seen", Ref("C", "seen")}}}
+		if d.Second {
+			if d.Late {
+				return nil
+			}
+			cw.Ins = append(cw.Ins, Param{T: cons.Ins[len(cons.Ins)-1].T, Name: "x2"})
+			cw.Calls[0].Binds = append(cw.Calls[0].Binds, Bind{"x2", Self("x2")})
+		}
 		p.Pipelines = append(p.Pipelines, cw)
 		top.Calls = append(top.Calls, &Call{Callee: "CW", Alias: "C1", Binds: []Bind{{"x", srcE}, {"after", Self("n")}}})
+		if d.Second {
+			c := top.Calls[len(top.Calls)-1]
+			c.Binds = append(c.Binds, Bind{"x2", secondE})
+		}
 		top.Outs = append(top.Outs, Param{T: IntT, Name: "seen1"})
 		top.Ret = append(top.Ret, Bind{"seen1", Ref("C1", "seen")})
 		if d.Late {
@@ -871,6 +918,10 @@ func FileFlow(d FileParams) *Program {
 	if d.TopOut {
 		top.Outs = append(top.Outs, Param{T: valT, Name: "kept"})
 		top.Ret = append(top.Ret, Bind{"kept", srcE})
+		if d.Second {
+			top.Outs = append(top.Outs, Param{T: cons.Ins[len(cons.Ins)-1].T, Name: "kept2"})
+			top.Ret = append(top.Ret, Bind{"kept2", secondE})
+		}
 	}
 	p.Pipelines = append(p.Pipelines, top)
 	p.Top = &Call{Callee: "TOP", Binds: []Bind{{"n", Lit(Int(size))}}}
@@ -903,17 +954,19 @@ func FileFamily(maxDev int) []FileParams {
 											for f, late := range bools {
 												for g, topo := range bools {
 													for h, phys := range bools {
-														dev := 0
-														for _, x := range []int{oi, pi, di, ri, a, b, c, e, f, g, h} {
-															if x != 0 {
-																dev++
+														for k, second := range bools {
+															dev := 0
+															for _, x := range []int{oi, pi, di, ri, a, b, c, e, f, g, h, k} {
+																if x != 0 {
+																	dev++
+																}
 															}
+															if dev > maxDev {
+																continue
+															}
+															out = append(out, FileParams{Out: o, Proj: pr, Prod: prod, ProdWrap: pw, ConsWrap: cw,
+																ConsMap: cm, ProdMap: pm, Late: late, Vol: vol, Retain: ret, TopOut: topo, Mode: mode, Size: 2, Phys: phys, Second: second})
 														}
-														if dev > maxDev {
-															continue
-														}
-														out = append(out, FileParams{Out: o, Proj: pr, Prod: prod, ProdWrap: pw, ConsWrap: cw,
-															ConsMap: cm, ProdMap: pm, Late: late, Vol: vol, Retain: ret, TopOut: topo, Mode: mode, Size: 2, Phys: phys})
 													}
 												}
 											}
